@@ -586,7 +586,18 @@ impl<'a> World<'a> {
                 }
                 // 6: another owner-signed base for the same address; only meaningful against a held register
                 let other_base = d.items.iter().any(|i| i.1 == 6) && matches!(&prior, Some(Stored::Reg(_)));
-                let reg = if other_base {
+                // 8: a base signed for another label, re-labelled to this register's address
+                let relabelled = !other_base && d.items.iter().any(|i| i.1 == 8);
+                let reg = if relabelled {
+                    let mut v = serde_json::to_value(&foreign_base).expect("register to json");
+                    v["register"]["address"] = serde_json::to_value(base.address()).expect("address to json");
+                    let forged: SignedRegister = serde_json::from_value(v).expect("register from json");
+                    assert!(forged.address() == base.address());
+                    all_permitted = false;
+                    self.rep.fault("register_base_signed_for_another_label");
+                    let own_ops: Vec<RegisterOp> = d.items.iter().map(|(id, _)| data::register_op(&base, 700 + *id, &self.reg_owners[d.who as usize % 2])).collect();
+                    data::register_with_ops(&forged, &own_ops)
+                } else if other_base {
                     let owner = self.reg_owners[d.who as usize % 2].clone();
                     let b2 = data::base_register(&owner, Self::reg_meta(d.who % 2), &[self.stranger.public_key()], false);
                     let ops2: Vec<RegisterOp> = d.items.iter().map(|(id, _)| data::register_op(&b2, 500 + *id, &self.stranger)).collect();
@@ -612,6 +623,12 @@ impl<'a> World<'a> {
                         } else {
                             "other_base_same_address_while_held_copy_unindexed".into()
                         },
+                    }
+                } else if relabelled {
+                    Decision::Reject {
+                        prop: "C04",
+                        rule: "register_stored_on_a_base_the_owner_signed_for_another_label",
+                        why: "relabelled_base".into(),
                     }
                 } else if !all_permitted {
                     Decision::Reject {
